@@ -240,6 +240,7 @@ class World:
             x = rng.choice(mem) if mem and rng.random() < 0.8 else rng.choice(jobsy)
             st["x"] = x
             st["f1"] = rng.random() < 0.35
+            st["f2"] = rng.random() < 0.3
             cur = sorted(self.ids(self.obj[x].required))
             if st["f1"]:
                 st["A"] = subset(cur, 2) if (cur and rng.random() < 0.8) else subset(jobsy, 1)
@@ -279,7 +280,13 @@ class World:
             return ret, "WallClock"
         try:
             if op == "requires":
-                got = x.requires(*a_objs, remove=st["f1"])
+                # f2: the requirements are given in one collection (list, tuple in a list, set)
+                if st.get("f2") and a_objs:
+                    form = len(a_objs) % 3
+                    coll = list(a_objs) if form == 0 else [tuple(a_objs)] if form == 1 else set(a_objs)
+                    got = x.requires(coll, remove=st["f1"])
+                else:
+                    got = x.requires(*a_objs, remove=st["f1"])
                 ret = "self" if got is x else "other"
             elif op == "add":
                 got = s.add(x)
